@@ -107,28 +107,38 @@ func c16GenRanges(r *Run, fn *ssa.Function) {
 		r.Fail("genRanges:start-cursor", r.Where(ss[0]), "undecided: next.start is not the loop-carried cursor")
 		return
 	}
-	mins := CallsTo(fn, "scanner.min")
+	// the batch length is the minimum of two values — whichever way the minimum is taken (the
+	// builtin, a helper function whose body decides "the smaller of its two parameters", or an
+	// inline comparison merging the two values)
+	mins := c16Minima(r, fn)
 	if len(mins) != 1 {
-		r.Fail("genRanges:batch-length", r.FnPos(fn), "undecided: expected one call of min(end-start, batch)")
+		r.Fail("genRanges:batch-length", r.FnPos(fn), fmt.Sprintf("undecided: expected one call of min(end-start, batch), found %d minima", len(mins)))
 		return
 	}
-	M := mins[0].Value()
+	M := mins[0].V
 	lS := r.D.Lin(S, nil)
-	lM := linLeaf(r.D.D(M))
-	_ = lM
 	// end = start + min − 1
 	diff := r.D.Lin(es[0].Val, nil).add(lS, -1)
 	wantDiff := r.D.Lin(M, nil).add(LinForm{Coef: map[string]int64{}, Const: 1}, -1)
 	r.Check("genRanges:next.end", diff.String() == wantDiff.String(), r.Where(es[0]), "next.end − next.start = "+diff.String()+" (must be min(end−start, batch) − 1)")
-	// min(end − start, batch)
+	// min(end − start, batch): one operand is end − start of the cursor, the other the batch size
 	var E ssa.Value
-	if b, ok := CallArgs(mins[0])[0].(*ssa.BinOp); ok && b.Op == token.SUB && b.Y == ssa.Value(S) {
-		E = b.X
-		r.Pass("genRanges:batch-length.remaining", r.Where(mins[0]), "batch length = min(end − start, …) over the loop's own cursor")
-	} else {
-		r.Fail("genRanges:batch-length.remaining", r.Where(mins[0]), "first operand of min is "+r.D.Lin(CallArgs(mins[0])[0], nil).String()+", not end − start of the cursor")
+	isRemaining := func(v ssa.Value) ssa.Value {
+		if b, ok := v.(*ssa.BinOp); ok && b.Op == token.SUB && b.Y == ssa.Value(S) {
+			return b.X
+		}
+		return nil
 	}
-	r.Check("genRanges:batch-length.batch", c16IsBatch(r, fn, CallArgs(mins[0])[1]), r.Where(mins[0]), "second operand of min is the configured batch size: "+r.D.D(CallArgs(mins[0])[1]))
+	rem, bat := mins[0].A, mins[0].B
+	if isRemaining(rem) == nil && isRemaining(bat) != nil {
+		rem, bat = bat, rem
+	}
+	if E = isRemaining(rem); E != nil {
+		r.Pass("genRanges:batch-length.remaining", r.Where(mins[0].At), "batch length = min(end − start, …) over the loop's own cursor")
+	} else {
+		r.Fail("genRanges:batch-length.remaining", r.Where(mins[0].At), "first operand of min is "+r.D.Lin(rem, nil).String()+", not end − start of the cursor")
+	}
+	r.Check("genRanges:batch-length.batch", c16IsBatch(r, fn, bat), r.Where(mins[0].At), "second operand of min is the configured batch size: "+r.D.D(bat))
 	// cursor: entry edge StartIndex, back edge start + min
 	entryOK, backOK := false, false
 	for i, e := range S.Edges {
@@ -151,7 +161,7 @@ func c16GenRanges(r *Run, fn *ssa.Function) {
 				}
 			}
 		}
-		r.Check("genRanges:end-bound", okE, r.Where(mins[0]), "the range end is opts.EndIndex (re-read only after an STH update)")
+		r.Check("genRanges:end-bound", okE, r.Where(mins[0].At), "the range end is opts.EndIndex (re-read only after an STH update)")
 	}
 	// loop condition table
 	if E != nil {
@@ -609,4 +619,146 @@ func c16IsBatch(r *Run, fn *ssa.Function, v ssa.Value) bool {
 		}
 	})
 	return ok
+}
+
+// c16Min is a value established to be the minimum of A and B.
+type c16Min struct {
+	V    ssa.Value
+	A, B ssa.Value
+	At   ssa.Instruction
+}
+
+// c16Minima lists the values of fn that are the minimum of two integer values:
+//   - a call of the builtin min with two operands,
+//   - a call of a two-parameter function of the module that returns its first parameter
+//     whenever it is the smaller and its second whenever that is the smaller (decided by
+//     walking its body under each outcome of the comparison of the two parameters),
+//   - a φ merging exactly two values a, b whose incoming edges are selected by a comparison
+//     of a with b such that a arrives when a < b and b arrives when a > b.
+func c16Minima(r *Run, fn *ssa.Function) []c16Min {
+	var out []c16Min
+	eachInstr(fn, func(in ssa.Instruction) {
+		switch x := in.(type) {
+		case *ssa.Call:
+			if len(x.Call.Args) != 2 || x.Call.IsInvoke() || !c16Integer(x.Type()) {
+				return
+			}
+			if b, ok := x.Call.Value.(*ssa.Builtin); ok {
+				if b.Name() == "min" {
+					out = append(out, c16Min{x, x.Call.Args[0], x.Call.Args[1], x})
+				}
+				return
+			}
+			if f := x.Call.StaticCallee(); f != nil && c16ReturnsSmaller(r, f) {
+				out = append(out, c16Min{x, x.Call.Args[0], x.Call.Args[1], x})
+			}
+		case *ssa.Phi:
+			if !c16Integer(x.Type()) {
+				return
+			}
+			if a, b, ok := c16PhiSmaller(r, fn, x); ok {
+				out = append(out, c16Min{x, a, b, x})
+			}
+		}
+	})
+	return out
+}
+
+func c16Integer(t types.Type) bool {
+	b, ok := t.Underlying().(*types.Basic)
+	return ok && b.Info()&types.IsInteger != 0
+}
+
+// c16ReturnsSmaller decides whether f(a, b) returns a whenever a < b, b whenever a > b and one
+// of them when a = b, for a function with two integer parameters and one result.
+func c16ReturnsSmaller(r *Run, f *ssa.Function) bool {
+	if len(f.Blocks) == 0 || len(f.Params) != 2 || f.Signature.Results().Len() != 1 || f.Signature.Recv() != nil {
+		return false
+	}
+	if !c16Integer(f.Params[0].Type()) || !types.Identical(f.Params[0].Type(), f.Params[1].Type()) {
+		return false
+	}
+	key := ""
+	for k, ci := range r.D.AtomsOf(f) {
+		if ci.Kind == "ord" && ci.A == "p0" && ci.B == "p1" {
+			key = k
+		}
+	}
+	if key == "" {
+		return false
+	}
+	for _, v := range []string{"<", "=", ">"} {
+		reach := r.D.Walk(f, Sigma{key: v}, nil, nil)
+		r.Valuations++
+		rets := reachableReturns(f, reach)
+		if len(rets) == 0 {
+			return false
+		}
+		for _, ret := range rets {
+			for _, l := range PhiLeaves(ret.Results[0], reach) {
+				p, isParam := l.(*ssa.Parameter)
+				if !isParam || v == "<" && p != f.Params[0] || v == ">" && p != f.Params[1] {
+					return false
+				}
+			}
+		}
+	}
+	return true
+}
+
+// c16PhiSmaller decides whether φ carries the smaller of its two distinct incoming values.
+func c16PhiSmaller(r *Run, fn *ssa.Function, p *ssa.Phi) (ssa.Value, ssa.Value, bool) {
+	var a, b ssa.Value
+	for _, l := range p.Edges {
+		switch {
+		case a == nil || r.D.D(l) == r.D.D(a):
+			if a == nil {
+				a = l
+			}
+		case b == nil || r.D.D(l) == r.D.D(b):
+			if b == nil {
+				b = l
+			}
+		default:
+			return nil, nil, false
+		}
+	}
+	if a == nil || b == nil {
+		return nil, nil, false
+	}
+	da, db := r.D.D(a), r.D.D(b)
+	if db < da {
+		a, b, da, db = b, a, db, da
+	}
+	key := ""
+	for k, ci := range r.D.AtomsOf(fn) {
+		if ci.Kind == "ord" && ci.A == da && ci.B == db {
+			key = k
+		}
+	}
+	if key == "" {
+		return nil, nil, false
+	}
+	tests := r.blocksTesting(fn, func(ci *CondInfo) bool { return ci.Key == key })
+	if len(tests) != 1 || !tests[0].Dominates(p.Block()) {
+		return nil, nil, false
+	}
+	for _, v := range []string{"<", ">"} {
+		reach := r.D.Walk(fn, Sigma{key: v}, tests[0], nil)
+		r.Valuations++
+		n := 0
+		for i, l := range p.Edges {
+			if !reach.Edges[[2]int{p.Block().Preds[i].Index, p.Block().Index}] {
+				continue
+			}
+			n++
+			if v == "<" && r.D.D(l) != da || v == ">" && r.D.D(l) != db {
+				return nil, nil, false
+			}
+		}
+		if n == 0 {
+			return nil, nil, false
+		}
+	}
+	return a, b, true
 }
